@@ -2,6 +2,7 @@ use prqlc_parser::parser::pr;
 
 use crate::codegen::SeparatedExprs;
 
+use super::ast::write_ident_part;
 use super::{WriteOpt, WriteSource};
 
 pub(crate) fn write_ty(ty: &pr::Ty) -> String {
@@ -73,7 +74,7 @@ impl WriteSource for pr::TyTupleField {
                 let mut r = String::new();
 
                 if let Some(name) = name {
-                    r += name;
+                    r += &write_ident_part(name);
                     r += " = ";
                 }
                 if let Some(expr) = expr {
